@@ -110,87 +110,83 @@ func zzFlatten(rt *GraphicsPlatform) []zzShape {
 	return out
 }
 
-// ZZC19History: S commands from the initial state.
-func ZZC19History() {
-	S := zzParam("S", 2)
-	rt := NewGraphicsPlatform()
-	// oracle state
-	px, py := 0.0, 1000.0
-	pen := zzDefStyle()
-	var want []zzShape
-	want = append(want, zzShape{kind: "rect", geo: []float64{0, 0}, text: "100%x100%", style: zzStyle{fill: "white", stroke: "white", linecap: "round", width: 1}, own: true})
-	for s := 0; s < S; s++ {
-		cmd := zzChoice("cmd", 14)
-		switch cmd {
-		case 0: // move
-			x, y := zzFloat64("x"), zzFloat64("y")
-			rt.Move(x, y)
-			px, py = 10*x, 1000-10*y
-		case 1: // line
-			x, y := zzFloat64("x"), zzFloat64("y")
-			rt.Line(x, y)
-			nx, ny := 10*x, 1000-10*y
-			want = append(want, zzShape{kind: "line", geo: []float64{px, py, nx, ny}, style: pen})
-			px, py = nx, ny
-		case 2: // rect
-			w, h := zzFloat64("w"), zzFloat64("h")
-			rt.Rect(w, h)
-			sw, sh := 10*w, -(10 * h)
-			nx, ny := px+sw, py+sh
-			want = append(want, zzShape{kind: "rect", geo: []float64{min(px, nx), min(py, ny)}, text: zzF(math.Abs(sw)) + "x" + zzF(math.Abs(sh)), style: pen})
-			px, py = nx, ny
-		case 3: // circle
-			r := zzFloat64("r")
-			rt.Circle(r)
-			want = append(want, zzShape{kind: "circle", geo: []float64{px, py, 10 * r}, style: pen})
-		case 4: // ellipse (no rotation)
-			x, y, rx, ry := zzFloat64("x"), zzFloat64("y"), zzFloat64("rx"), zzFloat64("ry")
-			rt.Ellipse(x, y, rx, ry, 0, 0, 360)
-			want = append(want, zzShape{kind: "ellipse", geo: []float64{10 * x, 1000 - 10*y, 10 * rx, 10 * ry}, style: pen})
-		case 5: // poly with two vertices
-			x1, y1, x2, y2 := zzFloat64("x"), zzFloat64("y"), zzFloat64("x"), zzFloat64("y")
-			rt.Poly([][]float64{{x1, y1}, {x2, y2}})
-			want = append(want, zzShape{kind: "poly", text: zzF(10*x1) + "," + zzF(1000-10*y1) + " " + zzF(10*x2) + "," + zzF(1000-10*y2), style: pen})
-		case 6: // text
-			rt.Text("hi <&>")
-			st := pen
-			st.fill = pen.stroke // text is painted in the stroke colour
-			want = append(want, zzShape{kind: "text", geo: []float64{px, py}, text: "hi <&>", style: st})
-		case 7: // clear
-			c := zzColors[zzChoice("color", len(zzColors))]
-			rt.Clear(c)
-			if c == "" {
-				c = "white"
-			}
-			st := pen
-			st.fill, st.stroke = c, c
-			want = append(want, zzShape{kind: "rect", geo: []float64{0, 0}, text: "100%x100%", style: st, own: true})
-		case 8: // width
-			w := zzFloat64("w")
-			rt.Width(w)
-			pen.width = 10 * w
-		case 9: // color
-			c := zzColors[zzChoice("color", len(zzColors))]
-			rt.Color(c)
-			pen.fill, pen.stroke = c, c
-		case 10: // stroke
-			c := zzColors[zzChoice("color", len(zzColors))]
-			rt.Stroke(c)
-			pen.stroke = c
-		case 11: // fill
-			c := zzColors[zzChoice("color", len(zzColors))]
-			rt.Fill(c)
-			pen.fill = c
-		case 12: // dash
-			a, b := zzFloat64("d"), zzFloat64("d")
-			rt.Dash([]float64{a, b})
-			pen.dash = zzF(10*a) + " " + zzF(10*b)
-		case 13: // linecap
-			c := []string{"butt", "square", "round"}[zzChoice("cap", 3)]
-			rt.Linecap(c)
-			pen.linecap = c
+// zzC19Cmd performs one command (symbolic selector, symbolic numbers) on rt
+// and on the oracle state (cursor px/py in SVG units, pen, expected shapes).
+func zzC19Cmd(rt *GraphicsPlatform, px, py *float64, pen *zzStyle, want *[]zzShape) {
+	cmd := zzChoice("cmd", 14)
+	switch cmd {
+	case 0: // move
+		x, y := zzFloat64("x"), zzFloat64("y")
+		rt.Move(x, y)
+		*px, *py = 10*x, 1000-10*y
+	case 1: // line
+		x, y := zzFloat64("x"), zzFloat64("y")
+		rt.Line(x, y)
+		nx, ny := 10*x, 1000-10*y
+		*want = append(*want, zzShape{kind: "line", geo: []float64{(*px), (*py), nx, ny}, style: *pen})
+		*px, *py = nx, ny
+	case 2: // rect
+		w, h := zzFloat64("w"), zzFloat64("h")
+		rt.Rect(w, h)
+		sw, sh := 10*w, -(10 * h)
+		nx, ny := (*px)+sw, (*py)+sh
+		*want = append(*want, zzShape{kind: "rect", geo: []float64{min((*px), nx), min((*py), ny)}, text: zzF(math.Abs(sw)) + "x" + zzF(math.Abs(sh)), style: *pen})
+		*px, *py = nx, ny
+	case 3: // circle
+		r := zzFloat64("r")
+		rt.Circle(r)
+		*want = append(*want, zzShape{kind: "circle", geo: []float64{(*px), (*py), 10 * r}, style: *pen})
+	case 4: // ellipse (no rotation)
+		x, y, rx, ry := zzFloat64("x"), zzFloat64("y"), zzFloat64("rx"), zzFloat64("ry")
+		rt.Ellipse(x, y, rx, ry, 0, 0, 360)
+		*want = append(*want, zzShape{kind: "ellipse", geo: []float64{10 * x, 1000 - 10*y, 10 * rx, 10 * ry}, style: *pen})
+	case 5: // poly with two vertices
+		x1, y1, x2, y2 := zzFloat64("x"), zzFloat64("y"), zzFloat64("x"), zzFloat64("y")
+		rt.Poly([][]float64{{x1, y1}, {x2, y2}})
+		*want = append(*want, zzShape{kind: "poly", text: zzF(10*x1) + "," + zzF(1000-10*y1) + " " + zzF(10*x2) + "," + zzF(1000-10*y2), style: *pen})
+	case 6: // text
+		rt.Text("hi <&>")
+		st := *pen
+		st.fill = pen.stroke // text is painted in the stroke colour
+		*want = append(*want, zzShape{kind: "text", geo: []float64{(*px), (*py)}, text: "hi <&>", style: st})
+	case 7: // clear
+		c := zzColors[zzChoice("color", len(zzColors))]
+		rt.Clear(c)
+		if c == "" {
+			c = "white"
 		}
+		st := *pen
+		st.fill, st.stroke = c, c
+		*want = append(*want, zzShape{kind: "rect", geo: []float64{0, 0}, text: "100%x100%", style: st, own: true})
+	case 8: // width
+		w := zzFloat64("w")
+		rt.Width(w)
+		pen.width = 10 * w
+	case 9: // color
+		c := zzColors[zzChoice("color", len(zzColors))]
+		rt.Color(c)
+		pen.fill, pen.stroke = c, c
+	case 10: // stroke
+		c := zzColors[zzChoice("color", len(zzColors))]
+		rt.Stroke(c)
+		pen.stroke = c
+	case 11: // fill
+		c := zzColors[zzChoice("color", len(zzColors))]
+		rt.Fill(c)
+		pen.fill = c
+	case 12: // dash
+		a, b := zzFloat64("d"), zzFloat64("d")
+		rt.Dash([]float64{a, b})
+		pen.dash = zzF(10*a) + " " + zzF(10*b)
+	case 13: // linecap
+		c := []string{"butt", "square", "round"}[zzChoice("cap", 3)]
+		rt.Linecap(c)
+		pen.linecap = c
 	}
+}
+
+// zzC19Compare flushes rt and compares its flattened shapes with want.
+func zzC19Compare(rt *GraphicsPlatform, want []zzShape) {
 	rt.Push()
 	got := zzFlatten(rt)
 	zzAssert(len(got) == len(want), "C19: exactly one shape per drawing command")
@@ -230,7 +226,58 @@ func ZZC19History() {
 		zzAssert(g.style.linecap == ws.linecap && g.style.dash == ws.dash, "C19: "+w.kind+" line cap and dash are the pen's when it was drawn")
 		zzAssert(zzSameBits(g.style.width, ws.width), "C19: "+w.kind+" stroke width is the pen's when it was drawn")
 	}
+}
+
+// ZZC19History: S commands from the initial state.
+func ZZC19History() {
+	S := zzParam("S", 2)
+	rt := NewGraphicsPlatform()
+	// oracle state
+	px, py := 0.0, 1000.0
+	pen := zzDefStyle()
+	var want []zzShape
+	want = append(want, zzShape{kind: "rect", geo: []float64{0, 0}, text: "100%x100%", style: zzStyle{fill: "white", stroke: "white", linecap: "round", width: 1}, own: true})
+	for s := 0; s < S; s++ {
+		zzC19Cmd(rt, &px, &py, &pen, &want)
+	}
+	zzC19Compare(rt, want)
 	zzReach("history-ok")
+	zzWitness("end")
+}
+
+// ZZC19Step: T commands from an arbitrary pen state (any fill, stroke, width,
+// line cap, dash and cursor, with or without a shape still waiting to be
+// flushed): one inductive step covers style histories of any length.
+func ZZC19Step() {
+	T := zzParam("T", 2)
+	rt := NewGraphicsPlatform()
+	cols := []string{"black", "red", "", "blue"}
+	nc := zzParam("COLS", 3)
+	fill, stroke := cols[zzChoice("fill0", nc)], cols[zzChoice("stroke0", nc)]
+	w0 := zzFloat64("width0")
+	linecap, dash := "round", ""
+	if zzParam("FULL", 0) == 1 {
+		linecap = []string{"round", "butt"}[zzChoice("cap0", 2)]
+		dash = []string{"", "10 20"}[zzChoice("dash0", 2)]
+	}
+	x0, y0 := zzFloat64("x0"), zzFloat64("y0")
+	rt.Push() // the initial clear is flushed under the default pen
+	rt.attr = Attr{Fill: fill, Stroke: stroke, StrokeWidth: &w0, StrokeLinecap: linecap, StrokeDashArray: dash}
+	rt.x, rt.y = x0, y0
+	px, py := x0, y0
+	pen := zzStyle{fill: fill, stroke: stroke, linecap: linecap, dash: dash, width: w0}
+	var want []zzShape
+	want = append(want, zzShape{kind: "rect", geo: []float64{0, 0}, text: "100%x100%", style: zzStyle{fill: "white", stroke: "white", linecap: "round", width: 1}, own: true})
+	if zzChoice("pending", 2) == 1 {
+		r := zzFloat64("r0")
+		rt.Circle(r)
+		want = append(want, zzShape{kind: "circle", geo: []float64{px, py, 10 * r}, style: pen})
+	}
+	for s := 0; s < T; s++ {
+		zzC19Cmd(rt, &px, &py, &pen, &want)
+	}
+	zzC19Compare(rt, want)
+	zzReach("step-ok")
 	zzWitness("end")
 }
 
